@@ -26,11 +26,11 @@ func parseNames(names ast.Branch) []string {
 	return result
 }
 
-func parseName(name ast.Branch) string {
+func parseName(name ast.Branch) (string, error) {
 	ktype, children := which(name, "IDENT", "STR")
 	switch ktype {
 	case "IDENT":
-		return children.(ast.One).Node.One("").(ast.Leaf).Scanner().String()
+		return children.(ast.One).Node.One("").(ast.Leaf).Scanner().String(), nil
 	case "STR":
 		s := children.(ast.One).Node.One("").(ast.Leaf).Scanner().String()
 		return parseArraiString(s)
